@@ -63,6 +63,8 @@ Inductive dev :=
 
 Definition drive_dwrite (has_to : bool) (s : dstate) (ev : env) (t : nat) : option (dstate * env) :=
   bind (dstep has_to s (DAcquire t)) (fun s1 =>
+  match pc_of (d_thr s1) t with
+  | Some PHold =>
   let '(dl, ev1) := dl_call has_to ev in
   match dl with
   | Some e => bind (dstep has_to s1 (DStartWrite t (Some e))) (fun s2 => Some (s2, ev1))
@@ -71,6 +73,8 @@ Definition drive_dwrite (has_to : bool) (s : dstate) (ev : env) (t : nat) : opti
       let '(n, e, ev2) := pipe_write ev1 (length (frame_of (d_thr s2) t)) in
       bind (dstep has_to s2 (DChunk t n)) (fun s3 =>
       bind (dstep has_to s3 (DWriteRet t e)) (fun s4 => Some (s4, ev2))))
+  end
+  | _ => Some (s1, ev)      (* refused after acquiring the semaphore: context done, or an earlier write was torn *)
   end).
 
 Fixpoint drive_direct (has_to : bool) (s : dstate) (ev : env) (evs : list dev) : option (dstate * env) :=
@@ -131,21 +135,14 @@ Fixpoint drive_coal (has_to : bool) (s : cstate) (ev : env) (evs : list cev) : o
 (* ---- cases ---- *)
 
 Inductive case :=
-| CDirect (has_to : bool) (frames : list (list Z)) (ctxdone : list Z) (quit : bool)
+| CDirect (has_to : bool) (frames : list (list Z)) (ctxdone : list (Z * err)) (quit : bool)
           (faults : list (Z * fkind)) (dlfail : list (Z * Z)) (evs : list dev)
           (results : list (option (Z * option err))) (wire : list Z) (calls : list (Z * Z))
-| CCoal (has_to : bool) (frames : list (list Z)) (ctxdone : list Z)
+| CCoal (has_to : bool) (frames : list (list Z)) (ctxdone : list (Z * err))
         (faults : list (Z * fkind)) (dlfail : list (Z * Z)) (evs : list cev)
         (results : list (option (Z * option err))) (wire : list Z) (calls : list (Z * Z))
 | CMustClose (coalesce : bool) (frame : list Z) (n : Z) (e : err) (closed : bool).
    (* a whole Conn: the only request's Write accepted n bytes and returned e; was the connection closed afterwards? *)
-
-Definition err_eqb (a b : err) : bool :=
-  match a, b with
-  | ECanceled, ECanceled | EDeadlineExceeded, EDeadlineExceeded | EConnClosed, EConnClosed | EEOF, EEOF => true
-  | EOther x, EOther y => Z.eqb x y
-  | _, _ => false
-  end.
 
 Definition res_eqb (a : res) (b : Z * option err) : bool :=
   (Z.of_nat (fst a) =? fst b)%Z && opt_eqb err_eqb (snd a) (snd b).
@@ -173,7 +170,7 @@ Definition try_c (has_to : bool) (s : cstate) (l : clabel) : cstate :=
 Definition check (c : case) : bool :=
   match c with
   | CDirect has_to frames ctxdone quit faults dlfail evs results wire calls =>
-      let pre := map DCall frames ++ map (fun t => DCtxDone (Z.to_nat t)) ctxdone ++ (if quit then [DEnvQuit] else []) in
+      let pre := map DCall frames ++ map (fun te => DCtxDone (Z.to_nat (fst te)) (snd te)) ctxdone ++ (if quit then [DEnvQuit] else []) in
       match bind (drun has_to d_init pre) (fun s => drive_direct has_to s (mk_env faults dlfail) evs) with
       | Some (s, _) =>
           results_match (d_thr s) (length frames) results
@@ -182,7 +179,7 @@ Definition check (c : case) : bool :=
       | None => false
       end
   | CCoal has_to frames ctxdone faults dlfail evs results wire calls =>
-      let pre := map CCall frames ++ map (fun t => CCtxDone (Z.to_nat t)) ctxdone in
+      let pre := map CCall frames ++ map (fun te => CCtxDone (Z.to_nat (fst te)) (snd te)) ctxdone in
       match bind (crun has_to c_init pre) (fun s => drive_coal has_to s (mk_env faults dlfail) evs) with
       | Some (s, _) =>
           results_match (c_thr s) (length frames) results
